@@ -2,6 +2,7 @@ package main
 
 import (
 	"bytes"
+	"context"
 	"errors"
 	"fmt"
 	"io"
@@ -65,6 +66,8 @@ func errClass(err error) int {
 		return 7
 	case errors.Is(err, errInjected):
 		return 8
+	case errors.Is(err, context.Canceled), errors.Is(err, context.DeadlineExceeded):
+		return 9
 	}
 	return 99
 }
